@@ -193,6 +193,11 @@ pub struct World {
     pub ready: Vec<bool>,
     /// a ppoll whose requested events are not what the blocked operation needs: (operation, requested, needed)
     pub wrong_events: Option<(String, i16, i16)>,
+    /// the time limit of the wait in progress (time-out of its first ppoll) and the model time already waited in it
+    pub wait_limit: Option<u64>,
+    pub waited: u64,
+    /// a later ppoll of the same wait was issued with more time than was left: (operation, given, left, limit)
+    pub restarted: Option<(String, u64, u64, u64)>,
     /// the application is stuck for ever: in a blocking-mode call sleeping in the kernel, or in a ppoll without time-out
     pub stuck: Option<Stuck>,
     /// once stuck the execution is wound down: every further call answers EBADF
@@ -247,6 +252,9 @@ impl World {
             need: Vec::with_capacity(4),
             ready: Vec::with_capacity(4),
             wrong_events: None,
+            wait_limit: None,
+            waited: 0,
+            restarted: None,
             stuck: None,
             halted: false,
             kernel_sleeps: 0,
@@ -302,6 +310,9 @@ impl World {
 
     /// the call on descriptor `i` answered "would block": the readiness its caller has to wait for
     fn note_need(&mut self, i: usize, ret: i64, ev: i16) {
+        // any call other than ppoll ends the wait in progress
+        self.wait_limit = None;
+        self.waited = 0;
         if i < self.ready.len() {
             self.ready[i] = false;
         }
@@ -999,6 +1010,23 @@ impl World {
         if timeout != Some(0) {
             self.blocking_ppolls += 1;
         }
+        // one wait = consecutive ppolls: the first one's time-out is the limit, every later one (EINTR retry) may
+        // only ask for what is left — Linux wrote exactly that back through the pointer
+        if let Some(t) = timeout {
+            match self.wait_limit {
+                None => {
+                    self.wait_limit = Some(t);
+                    self.waited = 0;
+                }
+                Some(l) => {
+                    let left = l.saturating_sub(self.waited);
+                    if t > left && self.restarted.is_none() && self.menu.eintr_writeback {
+                        self.restarted = Some((self.cur_op.clone(), t, left, l));
+                        self.ev.push(Ev::Note("ppoll retried with more time than was left of the limit"));
+                    }
+                }
+            }
+        }
         // the wait must be for the readiness the blocked operation needs, and for nothing in the other direction
         if let Some(i) = self.sock_idx(fd) {
             let need = self.need[i];
@@ -1017,6 +1045,13 @@ impl World {
             if rev != 0 {
                 if let Some(i) = self.sock_idx(fd) {
                     self.ready[i] = true;
+                }
+                // Linux writes the remaining time back on every return; no model time passed here
+                if let (Some(t), false) = (timeout, ts.is_null()) {
+                    unsafe {
+                        (*ts).tv_sec = (t / 1_000_000_000) as i64;
+                        (*ts).tv_nsec = (t % 1_000_000_000) as i64;
+                    }
                 }
                 unsafe { (*pfd).revents = rev };
                 // no virtual time passes while the peer acts: the remaining time stays as passed in
@@ -1082,6 +1117,7 @@ impl World {
 
     fn fire_timeout(&mut self, ts: *mut libc::timespec, start: u64, t: u64) -> i64 {
         self.clock = start.saturating_add(t);
+        self.waited = self.waited.saturating_add(t);
         self.timeouts_fired += 1;
         self.ev.push(Ev::Clock(self.clock));
         unsafe {
@@ -1095,7 +1131,16 @@ impl World {
     fn eintr(&mut self, ts: *mut libc::timespec, start: u64, timeout: Option<u64>) -> i64 {
         self.eintrs += 1;
         if let Some(t) = timeout {
-            let el = t / 2;
+            // how much of the time-out had elapsed when the signal came: a free choice from a small menu
+            let mut menu: Vec<u64> = Vec::with_capacity(4);
+            for e in [t / 2, 0, 1.min(t), t.saturating_sub(1)] {
+                if !menu.contains(&e) {
+                    menu.push(e);
+                }
+            }
+            let c = self.choose(menu.len(), 0);
+            let el = menu[c];
+            self.waited = self.waited.saturating_add(el);
             self.clock = start.saturating_add(el);
             self.ev.push(Ev::Clock(self.clock));
             if self.menu.eintr_writeback {
